@@ -813,3 +813,13 @@ package wire
 //@   let dgOK = saved.MaxDatagramFrameSize == -1 || (p.MaxDatagramFrameSize != -1 && p.MaxDatagramFrameSize >= saved.MaxDatagramFrameSize)
 //@   ensures [no-limit-reduced] iff(result, dgOK && p.InitialMaxStreamDataBidiLocal >= saved.InitialMaxStreamDataBidiLocal && p.InitialMaxStreamDataBidiRemote >= saved.InitialMaxStreamDataBidiRemote && p.InitialMaxStreamDataUni >= saved.InitialMaxStreamDataUni && p.InitialMaxData >= saved.InitialMaxData && p.MaxBidiStreamNum >= saved.MaxBidiStreamNum && p.MaxUniStreamNum >= saved.MaxUniStreamNum && p.ActiveConnectionIDLimit >= saved.ActiveConnectionIDLimit)
 //@   modifies nothing
+
+// ---------------- the Frame interface as seen by callers ----------------
+// Every in-tree frame type's Append only appends to (or re-allocates) the slice it is given and reads the frame.
+//@ iface (f wire.Frame) Append
+//@   ensures [extends] implies(result1 == nil, len(result0) >= len(b))
+//@   ensures [in-place-or-fresh] cap(result0) == 0 || samebacking(result0, b) || isfresh(result0)
+//@   modifies b[*]
+//@ iface (f wire.Frame) Length
+//@   ensures result >= 0
+//@   modifies nothing
